@@ -119,6 +119,12 @@ impl Vm {
 
       // put the fiber in the queue
       self.fiber_queue.push_back(new_fiber);
+
+      #[cfg(feature = "verif")]
+      {
+        laythe_core::verif::fresh(laythe_core::verif::K_FIBER, new_fiber.to_usize());
+        self.verif_fiber_event("launch", new_fiber);
+      }
       self.current_fun = current_fun;
       self.load_ip();
     }
@@ -130,6 +136,8 @@ impl Vm {
   pub(super) unsafe fn op_channel(&mut self) -> ExecutionSignal { unsafe {
     let hooks = GcHooks::new(self);
     let channel = self.manage_obj(Channel::sync(&hooks));
+    #[cfg(feature = "verif")]
+    self.verif_chan_new(channel, true);
     self.fiber.push(val!(channel));
 
     ExecutionSignal::Ok
@@ -159,6 +167,8 @@ impl Vm {
 
     let hooks = GcHooks::new(self);
     let channel = self.manage_obj(Channel::with_capacity(&hooks, capacity as usize));
+    #[cfg(feature = "verif")]
+    self.verif_chan_new(channel, false);
     self.fiber.push(val!(channel));
 
     ExecutionSignal::Ok
@@ -174,6 +184,8 @@ impl Vm {
 
       match channel.receive(self.fiber.waiter()) {
         ReceiveResult::Ok(value) => {
+          #[cfg(feature = "verif")]
+          self.verif_chan_op("recv", channel, "ok", Some(value));
           // Value was present put onto stack
           self.fiber.push(value);
           ExecutionSignal::Ok
@@ -182,6 +194,8 @@ impl Vm {
           self.runtime_error_from_str(self.builtin.errors.value, "todo no read access")
         }
         ReceiveResult::EmptyBlock(fiber) => {
+          #[cfg(feature = "verif")]
+          self.verif_chan_op("recv", channel, "emptyblock", None);
           if let Some(waiter) = fiber.or_else(|| self.fiber.get_runnable())  {
             self.queue_blocked_fiber(waiter);
           }
@@ -192,6 +206,8 @@ impl Vm {
           ExecutionSignal::ContextSwitch
         },
         ReceiveResult::Empty(fiber) => {
+          #[cfg(feature = "verif")]
+          self.verif_chan_op("recv", channel, "empty", None);
           if let Some(waiter) = fiber.or_else(|| self.fiber.get_runnable()) {
             self.queue_blocked_fiber(waiter);
           }
@@ -202,6 +218,8 @@ impl Vm {
           ExecutionSignal::ContextSwitch
         },
         ReceiveResult::Closed => {
+          #[cfg(feature = "verif")]
+          self.verif_chan_op("recv", channel, "closed", None);
           self.fiber.push(VALUE_NIL);
           ExecutionSignal::Ok
         }
@@ -223,13 +241,30 @@ impl Vm {
       let mut fiber = self.fiber;
       fiber.add_used_channel(self.gc.borrow_mut(), self, channel);
 
+      #[cfg(feature = "verif")]
+      let verif_closed_before = channel.is_closed();
+      #[cfg(feature = "verif")]
+      let verif_len_before = channel.len();
       match channel.send(self.fiber.waiter(), value) {
+        #[cfg(feature = "verif")]
+        SendResult::Ok if {
+          self.verif_chan_op("send", channel, "ok", Some(value));
+          false
+        } => ExecutionSignal::Ok,
+        #[cfg(feature = "verif")]
+        SendResult::Closed if {
+          let _ = (verif_closed_before, verif_len_before);
+          self.verif_chan_op("send", channel, "closed", Some(value));
+          false
+        } => ExecutionSignal::Ok,
         SendResult::Ok => ExecutionSignal::Ok,
         SendResult::NoSendAccess => self.runtime_error_from_str(
           self.builtin.errors.runtime,
           "Attempted to send into a receive only channel.",
         ),
         SendResult::FullBlock(fiber) => {
+          #[cfg(feature = "verif")]
+          self.verif_chan_op("send", channel, "fullblock", Some(value));
           // if channel has a waiter put into
           // the fiber queue
           if let Some(waiter) = fiber.or_else(|| self.fiber.get_runnable()) {
@@ -241,6 +276,8 @@ impl Vm {
           ExecutionSignal::ContextSwitch
         }
         SendResult::Full(fiber) => {
+          #[cfg(feature = "verif")]
+          self.verif_chan_op("send", channel, "full", Some(value));
           // if channel has a waiter put into
           // the fiber queue
           if let Some(waiter) = fiber.or_else(|| self.fiber.get_runnable()) {
